@@ -18,7 +18,7 @@ def show(path):
     return 0
 
 
-def kani_counterexample(scratch, harness, stubbed, timeout_s=900):
+def kani_counterexample(scratch, harness, stubbed, timeout_s=480):
     """Ask Kani for concrete values; if the harness is stub-free, re-execute them natively with `cargo kani playback`."""
     env = engine.env_offline()
     env['CARGO_TARGET_DIR'] = os.path.join(engine.CACHE, 'kani-target')
